@@ -48,6 +48,9 @@ def check(m, run):
     from . import c17
     c17.dom1(m, run)
     c17.ev2(m, run)
+    # the hull property rests on the basis values being the Cox-de Boor polynomials - non-negative on their span and summing to one (BF3, shared with C03)
+    from .. import skel_drivers as _sdb
+    _sdb.bf3(m, run)
     rs.iv4_deepcopy(m, run)
     run.floor('LY1.canonical-stride', 3, 'surface/volume evaluators')
 
